@@ -175,7 +175,10 @@ def check(run: Run) -> None:
                     return ("comp", t[1], subst(t[2], {first: ("elem", src)}), ((src, ()),))
         return t
 
-    rt = _len_norm(_seq_norm(strip_sites(fc.return_term())))
+    rt0_ = fc.return_term()
+    if rt0_ is None:
+        raise AnalysisError("convert_call_to_dict has no readable result (no return reached in the analysed view)")
+    rt = _len_norm(_seq_norm(strip_sites(rt0_)))
     d = dict(rt[2]) if rt[0] == "new" and rt[1] == "Dict" else {}
     keys, values = d.get("keys"), d.get("values")
     for kv_ in (keys, values):
@@ -258,6 +261,21 @@ def check(run: Run) -> None:
                 if isinstance(a, ast.Compare) and len(a.ops) == 1 and isinstance(a.ops[0], ast.In) and pol:
                     ct_ = _len_norm(_seq_norm(fx_._term(a.comparators[0])))
                     if ct_[0] == "slice" and ct_[1] == sigp and ct_[3] == n_pos and ct_[2] in (None, ("const", None), ("const", 0)):
+                        k2.add("twice")
+                # .. or the same by elimination: found by `n not in names or n in names[:len(args)]`, and known to be in names
+                if pol and isinstance(a, ast.BoolOp) and isinstance(a.op, ast.Or):
+                    def _in_prefix(d_):
+                        if isinstance(d_, ast.Compare) and len(d_.ops) == 1 and isinstance(d_.ops[0], ast.In):
+                            c_ = _len_norm(_seq_norm(fx_._term(d_.comparators[0])))
+                            return c_[0] == "slice" and c_[1] == sigp and c_[3] == n_pos and c_[2] in (None, ("const", None), ("const", 0))
+                        return False
+
+                    def _not_in_names(d_):
+                        return isinstance(d_, ast.Compare) and len(d_.ops) == 1 and isinstance(d_.ops[0], ast.NotIn) and fx_._term(d_.comparators[0]) == sigp
+
+                    rest_ = [d_ for d_ in a.values if not _in_prefix(d_)]
+                    known_in = any(p2 and isinstance(a2, ast.Compare) and len(a2.ops) == 1 and isinstance(a2.ops[0], ast.In) and fx_._term(a2.comparators[0]) == sigp for a2, p2 in fx_.atoms)
+                    if len(rest_) < len(a.values) and rest_ and all(_not_in_names(d_) for d_ in rest_) and known_in:
                         k2.add("twice")
                 # a `*` argument among the positional ones
                 if pol and isinstance(a, ast.Call) and isinstance(a.func, ast.Name) and a.func.id == "any" and "Starred" in txt:
